@@ -234,7 +234,7 @@ def select_scenarios(prop, tier):
         return [s for s in fams if os.environ["RT_ONLY"] in s["name"]]
     if prop == "C05":
         # seeded sample of the cross product (source lists of length <= 3) x (mailbox pre-loads) x (late arrivals)
-        fams += families.select_product(common.seed(), 8 if tier == "quick" else 60, 2)
+        fams += families.select_product(common.seed(), 30 if tier == "quick" else 120, 2)
     return fams
 
 
